@@ -1,4 +1,5 @@
 import SleapVerif.Lemmas.Toposort
+import SleapVerif.Lemmas.ToposortRelabel
 import SleapVerif.Model.Grouping
 /-!
 # C17 — every tree skeleton gets a complete, parent-before-child edge order
@@ -83,6 +84,34 @@ theorem toposort_sound_nodup {edges : List Edge} {r : Nat} (T : TreeLike edges r
     (∀ e ∈ bfsOut edges r, e ∈ edges) ∧ (bfsOut edges r).Nodup :=
   let I := binv_run T (edges.length + 1) (binv_init edges r)
   ⟨out_sub I, out_nodup I⟩
+
+/-- "However its nodes are numbered": renumbering the nodes by ANY injective map leaves the edge
+    order unchanged — for every listing, tree or not, including whether the implementation raises
+    (`none`).  In particular `PAFScorer`'s re-indexing of the skeleton's nodes by their position in
+    `part_names` cannot change the order used for grouping. -/
+theorem toposort_relabel (f : Nat → Nat) (hf : ∀ a b, f a = f b → a = b) (edges : List Edge) :
+    toposort (relabel f edges) = toposort edges := by
+  simp only [toposort]
+  rw [rootOf_relabel hf]
+  cases rootOf edges with
+  | none => rfl
+  | some r =>
+    simp only [Option.map_some]
+    rw [bfsOut_relabel hf, List.map_map]
+    congr 1
+    apply List.map_congr_left
+    intro e _
+    exact idxOf_relabel hf edges e
+
+/-- The breadth-first edge sequence itself is carried along by the renumbering (so the theorems
+    above about sources and destinations transfer to the renumbered skeleton). -/
+theorem bfs_relabel (f : Nat → Nat) (hf : ∀ a b, f a = f b → a = b) (edges : List Edge) (r : Nat) :
+    bfsOut (relabel f edges) (f r) = (bfsOut edges r).map (relabelE f) :=
+  bfsOut_relabel hf edges r
+
+/-- non-vacuity: the suite's skeleton renumbered by n ↦ 2n+3 (injective) -/
+example : toposort (relabel (fun n => 2 * n + 3) [(2,3),(0,1),(1,2),(1,4)]) = some [1,2,3,0] := by
+  rw [toposort_relabel _ (by intro a b h; omega)]; decide
 
 /-- The decidable recogniser printed by the driver is sound for the hypothesis: the harness asserts
     `isArbo = true` on every listing it treats as a tree, so each such case is an instance of the
